@@ -18,11 +18,62 @@ import (
 type c06Case struct {
 	Cfg simx.ChainCfg `json:"cfg"`
 	Ops []simx.MemOp  `json:"ops"`
+	// VM, when set, selects a translation-stack scenario instead of a memory chain.
+	VM   *simx.VMCfg `json:"vm,omitempty"`
+	XOps []simx.XOp  `json:"xops,omitempty"`
 	// Cut selects one cut (index into the distinct event times); -1 = all.
 	Cut int `json:"cut"`
 }
 
 var c06Ctx *lib.Ctx
+
+// c06Scn is one built instance of the scenario of a case.
+type c06Scn struct {
+	env    *simx.Env
+	start  func()
+	verify func(tag string) []lib.Problem
+}
+
+func (cs c06Case) build() c06Scn {
+	if cs.VM != nil {
+		cfg := *cs.VM
+		cfg.Full = true
+		st := simx.BuildVM(cfg, append([]simx.XOp{}, cs.XOps...))
+		return c06Scn{env: st.Env, start: func() { st.Driver.TickLater() }, verify: func(tag string) []lib.Problem {
+			var probs []lib.Problem
+			if !st.Driver.Done() {
+				probs = append(probs, lib.Problem{Key: "translation-unanswered", What: fmt.Sprintf("%d of %d translations unanswered", len(cs.XOps)-len(st.Driver.State.Results), len(cs.XOps))})
+			}
+			for _, r := range st.Driver.State.Results {
+				op := cs.XOps[r.Op]
+				if r.PAddr != simx.FrameOf(op.PID, op.VPage) {
+					probs = append(probs, lib.Problem{Key: "wrong-translation", What: fmt.Sprintf("op %d (pid %d vpage %d) translated to %#x", r.Op, op.PID, op.VPage, r.PAddr)})
+				}
+			}
+			for _, a := range st.Driver.State.Anomalies {
+				probs = append(probs, lib.Problem{Key: "unexpected-response", What: a})
+			}
+			return probs
+		}}
+	}
+	cfg := cs.Cfg
+	cfg.Full = true
+	ch := simx.BuildChain(cfg, cloneOps(cs.Ops))
+	return c06Scn{env: ch.Env, start: func() { ch.Driver.TickLater() }, verify: func(tag string) []lib.Problem {
+		return checkDriverAgainstFlat(ch, cs.Ops, tag, cfg.Name())
+	}}
+}
+
+func (cs c06Case) label() (sig, name, script string) {
+	if cs.VM != nil {
+		l2 := ""
+		if cs.VM.L2 {
+			l2 = ">L2TLB"
+		}
+		return "TLB" + l2 + ">MMU", cs.VM.Name(), fmt.Sprintf("%v", cs.XOps)
+	}
+	return fmt.Sprintf("%v+%s", cs.Cfg.Stages, cs.Cfg.Memory), cs.Cfg.Name(), scriptString(cs.Ops)
+}
 
 type refRun struct {
 	events []simx.EventRec
@@ -30,15 +81,15 @@ type refRun struct {
 	times  []uint64
 }
 
-func c06Reference(cfg simx.ChainCfg, ops []simx.MemOp) (*refRun, string) {
-	ch := simx.BuildChain(cfg, cloneOps(ops))
-	defer ch.Env.Close()
-	tr := ch.Env.TraceEvents()
-	ch.Driver.TickLater()
-	if msg := ch.Env.Run(400000); msg != "" {
+func c06Reference(cs c06Case) (*refRun, string) {
+	sc := cs.build()
+	defer sc.env.Close()
+	tr := sc.env.TraceEvents()
+	sc.start()
+	if msg := sc.env.Run(400000); msg != "" {
 		return nil, msg
 	}
-	snap, err := ch.Env.Snapshot()
+	snap, err := sc.env.Snapshot()
 	if err != nil {
 		return nil, err.Error()
 	}
@@ -58,12 +109,10 @@ var idRe = regexp.MustCompile(`"(id|ID|RspTo|rsp_to|req_id|ReqID|recv_task_id|ne
 func stripIDs(b []byte) []byte { return idRe.ReplaceAll(b, []byte(`"$1":0`)) }
 
 func runC06(cs c06Case) (string, []lib.Problem) {
-	cfg := cs.Cfg
-	cfg.Full = true
-	ref, msg := c06Reference(cfg, cs.Ops)
-	sig := fmt.Sprintf("%v+%s", cfg.Stages, cfg.Memory)
+	ref, msg := c06Reference(cs)
+	sig, cfgName, script := cs.label()
 	if ref == nil {
-		return "ref-failed", []lib.Problem{{Key: "checkpoint:reference-run-failed:" + sig, What: cfg.Name() + ": " + msg}}
+		return "ref-failed", []lib.Problem{{Key: "checkpoint:reference-run-failed:" + sig, What: cfgName + ": " + msg}}
 	}
 	var probs []lib.Problem
 	seen := map[string]bool{}
@@ -76,7 +125,7 @@ func runC06(cs c06Case) (string, []lib.Problem) {
 			return
 		}
 		seen[k] = true
-		probs = append(probs, lib.Problem{Key: k, What: fmt.Sprintf("%s script %s cut #%d (t=%d) %s resume: ", cfg.Name(), scriptString(cs.Ops), cut, t, mode) + fmt.Sprintf(f, a...)})
+		probs = append(probs, lib.Problem{Key: k, What: fmt.Sprintf("%s script %s cut #%d (t=%d) %s resume: ", cfgName, script, cut, t, mode) + fmt.Sprintf(f, a...)})
 	}
 	dir := lib.ScratchDir()
 	path := filepath.Join(dir, fmt.Sprintf("ck-%d.tar.gz", os.Getpid()))
@@ -90,35 +139,35 @@ func runC06(cs c06Case) (string, []lib.Problem) {
 				c06Ctx.Add("restores_explored", 1)
 			}
 			// source run up to the cut
-			src := simx.BuildChain(cfg, cloneOps(cs.Ops))
-			src.Driver.TickLater()
-			pm := lib.Catch(func() { _ = src.Env.Eng.RunUntil(timing.VTimeInPicoSec(t)) })
+			src := cs.build()
+			src.start()
+			pm := lib.Catch(func() { _ = src.env.Eng.RunUntil(timing.VTimeInPicoSec(t)) })
 			if pm != "" {
 				add(ci, t, mode, "source-run-panic", "%s", pm)
-				src.Env.Close()
+				src.env.Close()
 				continue
 			}
-			err := src.Env.Sim.SaveCheckpoint(path, "verif")
-			src.Env.Close()
+			err := src.env.Sim.SaveCheckpoint(path, "verif")
+			src.env.Close()
 			if err != nil {
 				add(ci, t, mode, "save-error", "%v", err)
 				continue
 			}
 			// rebuild and restore
 			simx.SkipReset = mode == "same-process"
-			dst := simx.BuildChain(cfg, cloneOps(cs.Ops))
+			dst := cs.build()
 			simx.SkipReset = false
-			tr := dst.Env.TraceEvents()
+			tr := dst.env.TraceEvents()
 			var lerr error
-			pm = lib.Catch(func() { lerr = dst.Env.Sim.LoadCheckpoint(path, "verif") })
+			pm = lib.Catch(func() { lerr = dst.env.Sim.LoadCheckpoint(path, "verif") })
 			if pm != "" || lerr != nil {
 				add(ci, t, mode, "load-failed", "%v %s", lerr, pm)
-				dst.Env.Close()
+				dst.env.Close()
 				continue
 			}
-			if m := dst.Env.Run(400000); m != "" {
+			if m := dst.env.Run(400000); m != "" {
 				add(ci, t, mode, "resumed-run-panic", "%s", m)
-				dst.Env.Close()
+				dst.env.Close()
 				continue
 			}
 			// event suffix
@@ -138,7 +187,7 @@ func runC06(cs c06Case) (string, []lib.Problem) {
 					}
 				}
 			}
-			snap, err := dst.Env.Snapshot()
+			snap, err := dst.env.Snapshot()
 			if err != nil {
 				add(ci, t, mode, "snapshot-error", "%v", err)
 			} else {
@@ -161,10 +210,10 @@ func runC06(cs c06Case) (string, []lib.Problem) {
 				}
 			}
 			// the resumed run must still be correct for the requester
-			for _, p := range checkDriverAgainstFlat(dst, cs.Ops, "resumed:"+sig, cfg.Name()) {
+			for _, p := range dst.verify("resumed:" + sig) {
 				add(ci, t, mode, "resumed-"+p.Key, "%s", p.What)
 			}
-			dst.Env.Close()
+			dst.env.Close()
 		}
 	}
 	return fmt.Sprintf("%s cuts%d", sig, len(ref.times)/8), probs
@@ -224,7 +273,49 @@ func c06Configs(c *lib.Ctx) []simx.ChainCfg {
 	return out
 }
 
+// enumC06VM yields the translation-stack cases: bursts of translations that
+// saturate the TLB lookup pipeline (items dwell in its entry stage).
+func enumC06VM(c *lib.Ctx, yield func(c06Case) bool) bool {
+	cfgs := []simx.VMCfg{
+		{Width: 2, Sets: 1, Ways: 2, MSHR: 2, Lat: 2, MMULat: 3, PortBuf: 4, Burst: 4},
+		{Width: 1, Sets: 2, Ways: 1, MSHR: 1, Lat: 1, MMULat: 2, PortBuf: 2, Burst: 2},
+		{Width: 2, Sets: 1, Ways: 2, MSHR: 2, Lat: 2, L2: true, MMULat: 3, PortBuf: 4, Burst: 4},
+	}
+	k := lib.Pick(c, 4, 5)
+	// pages: (pid1,vp0) (pid1,vp1) (pid2,vp0): every sequence of k requests
+	pages := []simx.XOp{{PID: 1, VPage: 0}, {PID: 1, VPage: 1}, {PID: 2, VPage: 0}}
+	for ci := range cfgs {
+		cfg := cfgs[ci]
+		idx := make([]int, k)
+		for {
+			ops := make([]simx.XOp, k)
+			for i, a := range idx {
+				ops[i] = pages[a]
+			}
+			if !yield(c06Case{VM: &cfg, XOps: ops, Cut: -1}) {
+				return false
+			}
+			p := k - 1
+			for p >= 0 {
+				idx[p]++
+				if idx[p] < len(pages) {
+					break
+				}
+				idx[p] = 0
+				p--
+			}
+			if p < 0 {
+				break
+			}
+		}
+	}
+	return true
+}
+
 func enumC06(c *lib.Ctx, yield func(c06Case) bool) {
+	if !enumC06VM(c, yield) {
+		return
+	}
 	lines := simx.SameSetLines(3)
 	alpha3 := opAlphabet(lines)
 	// quick alphabet: 5 kinds on line A + {write line, read line} on line B
@@ -252,7 +343,7 @@ func init() {
 	lib.Register(&lib.Check{
 		ID:    "C06",
 		Level: "fault_enumeration",
-		Rule: "crash-point style enumeration: for each assembly of the checkpoint catalogue (ideal / banked / DRAM memory, write-back, three write-through policies, ROB, two-level, interleaved; inside a real simulation.Simulation with tracing off) x every 2-operation script (quick: 7-operation alphabet over 2 lines on 5 assemblies; thorough: 21-operation alphabet over 3 lines, more assemblies and geometries and all DRAM presets), the uninterrupted run is recorded; then for EVERY distinct event time t: RunUntil(t), SaveCheckpoint, rebuild the identical simulation, LoadCheckpoint, Run — in two modes (fresh process state: ID generator and tracing side tables reset; same process: kept). " +
+		Rule: "crash-point style enumeration: for each assembly of the checkpoint catalogue (translation stacks TLB -> [L2 TLB] -> MMU with every burst of 4 (thorough 5) translations over 3 pages that saturates the TLB lookup pipeline; ideal / banked / DRAM memory, write-back, three write-through policies, ROB, two-level, interleaved; inside a real simulation.Simulation with tracing off) x every 2-operation script (quick: 7-operation alphabet over 2 lines on 5 assemblies; thorough: 21-operation alphabet over 3 lines, more assemblies and geometries and all DRAM presets), the uninterrupted run is recorded; then for EVERY distinct event time t: RunUntil(t), SaveCheckpoint, rebuild the identical simulation, LoadCheckpoint, Run — in two modes (fresh process state: ID generator and tracing side tables reset; same process: kept). " +
 			"Oracle: the handled-event suffix after t and the final SaveCheckpoint bytes of every entity (components, ports, connection, storages, engine, ID generator) equal the uninterrupted run's; the resumed run satisfies the flat-memory oracle. A case = (assembly, script); restores_explored counts (cut, mode) pairs.",
 		Sharded:     true,
 		MinOutcomes: 5,
